@@ -50,6 +50,8 @@ def run(tier, replay):
         os.makedirs(d)
         summary, recs = concrun.record(c, bins["strm"], [mode, d, seed, n])
         concrun.findings(c, recs, ("stall", "stream", "panic"), "C09")
+        if summary.get("aborted"):
+            continue          # the driver stopped at a wedged engine (reported above); its trace is incomplete
         bads, lines = validate(c, d)
         for b in bads:
             e = json.loads(lines[b["l"] - 1])
